@@ -117,8 +117,14 @@ def copy_name(cfg, root, name):
 # ---------------------------------------------------------------------------
 # type-exact equality
 
+_MAINPOINT = ('MainPoint', '_MainPointStandIn')
+
+
 def exact(a, b):
     """deep, type-exact equality (1, 1.0 and True differ; so do (1,) and [1])"""
+    if type(a).__name__ in _MAINPOINT and type(b).__name__ in _MAINPOINT:
+        # an instance of the class a worker interpreter defines in its __main__ (rebuilt by value in whoever reads it) / the harness's stand-in
+        return exact(a.x, b.x)
     if type(a) is not type(b):
         return False
     if isinstance(a, (list, tuple)):
